@@ -72,7 +72,7 @@ Cnt0 == [i \in 1..NCnt |-> 0]
 (* ----- initial state ----- *)
 St0 == [nodes |-> <<>>, subj |-> <<>>, subs |-> <<>>, multi |-> <<>>,
         tasks |-> <<>>, hots |-> <<>>, handles |-> <<>>, shared |-> <<>>,
-        futs |-> <<<<>>, <<>>>>, streams |-> <<<<>>, <<>>>>, timerlog |-> <<>>,
+        statcells |-> <<>>, futs |-> <<<<>>, <<>>>>, streams |-> <<<<>>, <<>>>>, timerlog |-> <<>>,
         now |-> 0, log |-> <<>>, cnt |-> Cnt0,
         stack |-> <<>>, vs |-> <<>>, ret |-> U, fault |-> "", arc |-> FALSE,
         nprobe |-> 0]
